@@ -503,6 +503,7 @@ class Prop:
     case_module = "CaseC17"
     case_vo = "theories/Cases/CaseC17.vo"
     run_fn = "run17"
+    post_variants = {"quick": 40, "thorough": 400}
     shard = 40
     rule = ("plain and typed trees: every ordered forest with <= N nodes (N=4 quick, 5 thorough) x 6 label patterns "
             "(all distinct; clones across branches; a descendant that is a clone of its ancestor; int data_ids incl. 0; "
